@@ -31,6 +31,37 @@ def TablesOK (F : GF.GF) : Prop := 2 ≤ F.size ∧ ∀ x ∈ F.log.toList, x < 
 
 instance (F : GF.GF) : Decidable (TablesOK F) := by unfold TablesOK; infer_instance
 
+/-- every entry that the log-table loop of `NewGenericGF` writes is an index below the bound -/
+theorem logLoop_lt (B : Nat) : ∀ (es : List Nat) (i : Nat) (acc : List Nat), (∀ x ∈ acc, x < B) → i + es.length ≤ B →
+    ∀ x ∈ GF.logLoop es i acc, x < B := by
+  intro es
+  induction es with
+  | nil => intro i acc h _ x hx; exact h x hx
+  | cons e es ih =>
+    intro i acc h hi x hx
+    simp only [GF.logLoop] at hx
+    refine ih (i + 1) (acc.set e i) (fun y hy => ?_) (by simp at hi; omega) x hx
+    rcases List.mem_or_eq_of_mem_set hy with h1 | h1
+    · exact h y h1
+    · subst h1; simp at hi; omega
+
+/-- the model's invariant implies what the translated code needs: a field built by `NewGenericGF` from well-formed parameters
+    has size ≥ 2 and all logarithms below the size -/
+theorem tablesOK_of_fieldOK (F : GF.GF) (h : Gzx.GF.FieldOK F) : TablesOK F := by
+  obtain ⟨hF, hP⟩ := h
+  refine ⟨hP.2.1, ?_⟩
+  rw [hF]
+  simp only [GF.mk']
+  intro x hx
+  refine logLoop_lt F.size _ 0 _ (fun y hy => ?_) ?_ x hx
+  · rw [List.mem_replicate] at hy; rw [hy.2]; have := hP.2.1; omega
+  · simp; omega
+
+/-! non-vacuity: the library's fields satisfy the hypotheses (all six: `FieldOK` is a per-run obligation in Obligations/C04) -/
+example : TablesOK GF.aztecParam := by decide +kernel
+example : TablesOK GF.qrCode256 := tablesOK_of_fieldOK _ (Gzx.GF.fieldOK_mk' (by decide +kernel))
+example : TablesOK GF.aztecData12 := tablesOK_of_fieldOK _ (Gzx.GF.fieldOK_mk' (by decide +kernel))
+
 when_kernel Gzx.Gen.K04b.gfAddOrSubtract in
 /-- `GenericGF_addOrSubtract(a, b)` = xor -/
 theorem k_gfAddOrSubtract_eq (a b : Nat) : Gen.K04b.gfAddOrSubtract a b = .ok ((a ^^^ b : Nat) : Int) := by
